@@ -11,8 +11,7 @@ def jqDialect : Dialect := { succinctly := false, ifNoElseNull := false, fromjso
 /-- jq 1.7.1 spelling of a number on output -/
 def jqPrint (n : JNum) : Option String :=
   match n.lit, n.repr with
-  | some l, .flt f => if f.isNaN then some "null" else if l.any (fun c => c == 'e' || c == 'E') then none else some (JNum.stripLit l)
-  | some l, .int _ => if l.any (fun c => c == 'e' || c == 'E') then none else some (JNum.stripLit l)
+  | some _, _ => JNum.print n
   | none, .int i => if i.natAbs ≤ 9007199254740992 then some (toString i) else none
   | none, .flt f =>
     if f.isNaN then some "null"
@@ -24,7 +23,7 @@ def render (v : JV JNum) : Option String := v.render jqPrint
 def errText (e : JV JNum) : Option String :=
   match e with
   | .str s => some s
-  | e => (render e).map fun t => t ++ " (not a string)"
+  | e => (render e).map fun t => "(not a string): " ++ t
 
 /-- (status, stdout, error message) of the model run -/
 def modelRun (prog input : String) : Option (Nat × String × Option String) :=
